@@ -67,11 +67,16 @@ def cmd_replay(argv):
     path = argv[0]
     js0 = json.load(open(path))
     hs = js0.get("hashseed")
-    if hs is not None and os.environ.get("PYTHONHASHSEED") != str(hs):
-        # the violation only shows under this hash seed
+    opt = js0.get("optimize")
+    if (hs is not None and os.environ.get("PYTHONHASHSEED") != str(hs)) or \
+            (opt and not sys.flags.optimize):
+        # the violation only shows under this interpreter configuration
         env = dict(os.environ)
-        env["VERIF_HASHSEED"] = str(hs)
-        env["PYTHONHASHSEED"] = str(hs)
+        if hs is not None:
+            env["VERIF_HASHSEED"] = str(hs)
+            env["PYTHONHASHSEED"] = str(hs)
+        if opt:
+            env["PYTHONOPTIMIZE"] = str(opt)
         os.execve(sys.executable, [sys.executable] + sys.argv, env)
     try:
         build.activate("plain")
